@@ -155,7 +155,24 @@ func runC08(r *ev.Run) {
 	cw1 := newC08World(r, chain.GenesisOptions{MinTransactBalance: 10})
 	// third: a compute runtime with an incoming message queue of capacity 1, committees elected every block
 	cw2 := newC08World(r, chain.GenesisOptions{Runtime: true, EpochInterval: 1, NodeExpiration: 12})
-	worlds := []*c08world{cw0, cw1, cw2}
+	// fourth: the vault universe (own menu: vault creation, actions of every kind by right and wrong
+	// authorities and nonces, pending actions under a 2-of-2 authority, withdrawals through the
+	// vault's withdraw hook within / above policy and balance)
+	cw3 := newC08World(r, chain.GenesisOptions{})
+	cw3.menu = cw3.w.vaultTxs()
+	cw3.byName = map[string]txT{}
+	for _, t := range cw3.menu {
+		cw3.byName[t.Name] = t
+	}
+	cw3.prefixes = [][]letter{
+		cw3.L("vault.Create(a0)"),
+		cw3.L("vault.Create(a0)", "transfer(a0->V,40)", "V.authorize(a0,#0,policy a1 60/10)"),
+		cw3.L("vault.Create(a0)", "transfer(a0->V,40)", "V.authorize(a0,#0,policy a1 60/10)", "withdraw(a1<-V,30)"),
+		cw3.L("vault.Create(a0)", "transfer(a0->V,40)", "V.authorize(a1,#0,suspend)"),
+		cw3.L("vault.Create(a1,thr2)", "transfer(a0->W,40)", "W.authorize(a0,#0,policy a2 25/5) first of two"),
+		cw3.L("vault.Create(a1,thr2)", "transfer(a0->W,40)", "W.authorize(a0,#0,exec transfer W->a2 100>balance)"),
+	}
+	worlds := []*c08world{cw0, cw1, cw2, cw3}
 	L := cw0.L
 	cw0.prefixes = [][]letter{
 		{},
@@ -290,9 +307,10 @@ func runC08(r *ev.Run) {
 	r.Add("states", int64(nPrefixes))
 	r.Set("transactions_in_menu", len(cw0.menu))
 	r.Set("transactions_in_runtime_menu", len(cw2.menu))
+	r.Set("transactions_in_vault_menu", len(cw3.menu))
 	r.Set("pre_states", nPrefixes)
 	r.Alias("traces_validated_against_impl", "transitions")
-	r.Set("rule", "for every pre-state (genesis and scripted prefixes: delegation, debonding in flight, allowance, open proposal, updated entity, new entity, drained account, slashed validator) and every transaction of the menu (all staking methods, governance, registry entity/node incl. key swaps and wrong signers, beacon, roothash, vault; with the runtime genesis also roothash.SubmitMsg into a full / non-full queue, with fee below the minimum, without funds, registry.RegisterRuntime updates by owner and non-owner, governance-model transitions, new runtimes, executor commits and evidence; valid and invalid in one respect) and every gas limit 0..needed: replica X executes [t], twin Y the empty block, twin Z a trivially atomic failing transaction of the same signer with the same fee, gas and nonce (undecodable body); if t fails: the signer's nonce did not advance => dump(X) = dump(Y), else dump(X) = dump(Z) (full key/value dump of the consensus state). Independently a burst of CheckTx + EstimateGas of the whole menu before an empty block leaves the dump equal to the twin without the burst")
+	r.Set("rule", "for every pre-state (genesis and scripted prefixes: delegation, debonding in flight, allowance, open proposal, updated entity, new entity, drained account, slashed validator) and every transaction of the menu (all staking methods, governance, registry entity/node incl. key swaps and wrong signers, beacon, roothash, vault; with the runtime genesis also roothash.SubmitMsg into a full / non-full queue, with fee below the minimum, without funds, registry.RegisterRuntime updates by owner and non-owner, governance-model transitions, new runtimes, executor commits and evidence; in the vault universe vault creation, actions of every kind (withdraw policy, suspend / resume, authority update, execute-message with succeeding and failing inner staking transactions) by right and wrong authorities and nonces, pending actions under a 2-of-2 authority, cancellation, and staking withdrawals through the vault's withdraw hook within / above policy and balance; valid and invalid in one respect) and every gas limit 0..needed: replica X executes [t], twin Y the empty block, twin Z a trivially atomic failing transaction of the same signer with the same fee, gas and nonce (undecodable body); if t fails: the signer's nonce did not advance => dump(X) = dump(Y), else dump(X) = dump(Z) (full key/value dump of the consensus state). Independently a burst of CheckTx + EstimateGas of the whole menu before an empty block leaves the dump equal to the twin without the burst")
 	r.Assume("MaxBlockGas = 0 so that a failed transaction's gas cannot legitimately affect the rest of the block", "transactions the harness cannot construct validly (TEE-attested nodes, valid executor commitments, key manager and CHURP methods) are not in the menu")
 	r.Finish()
 }
